@@ -65,6 +65,9 @@ def simplify_specifiers(spec):
             raise err()
         if ( gt.version == lt.version and gt.operator == '>=' and
              lt.operator == '<='):
+            if ne:
+                # The only version still in bounds is excluded.
+                raise err()
             return SpecifierSet('=={}'.format(gt.version))
 
     return SpecifierSet(
